@@ -335,7 +335,8 @@ def _discharge_all(E, rep):
                         o.replay = try_replay(E, E.cur, r.model, E.entry_state, E.entry_frame, getattr(o, "clause", None),
                                               "raises" if o.kind == "raises" else "post")
     # native counterexample search for what the solver left open (refuter only: it never proves anything)
-    open_obls = [o for o in E.obls if o.status == "undecided" and o.func == E.cur and not E.cur.startswith("lemma:")
+    open_obls = [o for o in E.obls if (o.status == "undecided" or (o.status == "refuted" and not (getattr(o, "replay", None) or {}).get("reproduced")))
+                 and o.func == E.cur and not E.cur.startswith("lemma:")
                  and (o.kind.startswith("post#") or o.kind == "raises") and not getattr(o, "tainted", None)]
     if open_obls and E.cur in E.reg.contracts:
         from .search import search
@@ -352,9 +353,10 @@ def _discharge_all(E, rep):
         for o in open_obls:
             w = found.get(o.id)
             if w is not None:
+                o.reason = ("solver: unknown; " if o.status == "undecided" else "solver: refuted; ") + \
+                    "a failing input was found by running the real function (native counterexample search)"
                 o.status = "refuted"
                 o.backend = (o.backend or "") + "+native-search"
-                o.reason = "solver: unknown; a failing input was found by running the real function (native counterexample search)"
                 o.replay = {"reproduced": True, "detail": w["observed"], "inputs": w["inputs"]}
     # cross-check of the model against CPython: every post clause of the function is also evaluated natively on generated
     # inputs; a clause that is false on the real function although its obligations were discharged means the engine's model
